@@ -63,6 +63,30 @@ type Step struct {
 	Val  int
 }
 
+// ValShift = 1: the library sees every item value lowered by one (spec value 1 is the Go value 0: the zero value of the
+// item type is itself an item); outputs are raised again before they are recorded. Only for value-agnostic operations.
+var ValShift int
+
+func unshift(v []int) []int {
+	if ValShift == 0 {
+		return v
+	}
+	out := make([]int, len(v))
+	for i, x := range v {
+		out[i] = x + ValShift
+	}
+	return out
+}
+
+// Shiftable: the operation does not compute with item values (so it can be run with shifted values)
+func Shiftable(name string) bool {
+	switch name {
+	case "Counter", "Repeat", "Reduce", "Equal", "SampleStream":
+		return false
+	}
+	return true
+}
+
 // Src is an instrumented scripted source, usable as iterator (items only) and as stream.
 type Src struct {
 	IgnoreCtx      bool // the source does not look at the context it is given (a closed channel, an in-memory source)
@@ -91,7 +115,7 @@ func (s *Src) INext() (int, bool) {
 		if st.Kind == StItem {
 			s.pos++
 			s.Taken++
-			return st.Val, true
+			return st.Val - ValShift, true
 		}
 		if st.Kind == StEnd {
 			return 0, false
@@ -125,7 +149,7 @@ func (s *Src) Next(ctx context.Context) (int, error) {
 	case StItem:
 		s.pos++
 		s.Taken++
-		return st.Val, nil
+		return st.Val - ValShift, nil
 	case StTran:
 		s.pos++
 		return 0, ErrTransient
@@ -150,8 +174,8 @@ type Params struct {
 	Fired  *int  // set to 1 when that failure was actually handed to the library
 }
 
-func (p Params) pred(v int) bool    { return p.Pred[v-1] == 1 }
-func (p Params) same(a, b int) bool { return p.Key[a-1] == p.Key[b-1] }
+func (p Params) pred(v int) bool    { return p.Pred[v-1+ValShift] == 1 }
+func (p Params) same(a, b int) bool { return p.Key[a-1+ValShift] == p.Key[b-1+ValShift] }
 
 type outI = iterator.Iterator[[]int]
 type outS = stream.Stream[[]int]
